@@ -147,6 +147,7 @@ impl Property for C10 {
                         Op::SetSeq { seq: 77, k: 0 },
                     ],
                     fault_at: None,
+                    alt_keys: vec![],
                 }));
             }
         }
